@@ -35,6 +35,7 @@ type PSpec struct {
 	RunOut  []string `json:"runout"` // per wake-up: ok err panic
 	BusyMs  int      `json:"busyms"`
 	ResetOK bool     `json:"resetok"`
+	ErrKind int      `json:"errkind,omitempty"` // what "err" returns: 0 plain, 1 wraps context.Canceled, 2 wraps context.DeadlineExceeded
 }
 
 // QSpec is a queue probe with failure patterns.
@@ -44,11 +45,13 @@ type QSpec struct {
 	HookOut []string `json:"hookout"` // nil: no run hook
 	Conc    int      `json:"conc"`
 	BusyMs  int      `json:"busyms"`
+	ErrKind int      `json:"errkind,omitempty"`
 }
 
 // TSpec is a task with a failure pattern.
 type TSpec struct {
-	Out []string `json:"out"` // per run: err panic block finish
+	Out     []string `json:"out"` // per run: err panic block finish
+	ErrKind int      `json:"errkind,omitempty"`
 }
 
 // Plan is a C16 plan.
@@ -75,16 +78,21 @@ func Gen(t *rapid.T) Plan {
 			RunOut:  genOuts(t, "runout", []string{"ok", "ok", "err", "err", "panic"}, 8),
 			BusyMs:  rapid.SampledFrom([]int{0, 0, 20, 400}).Draw(t, "pbusy"),
 			ResetOK: rapid.Bool().Draw(t, "resetok"),
+			// (controllers, run hooks and queue items: an error wrapping context.Canceled is the runtime's
+			// "interrupted" convention - the conformance QIntToStrSleepingController returns the error of a
+			// teardown-bound context - so only the deadline flavour is generated for them)
+			ErrKind: rapid.SampledFrom([]int{0, 0, 2}).Draw(t, "perrkind"),
 		})
 	}
 
 	nq := rapid.IntRange(0, 2).Draw(t, "nqueue")
 	for i := 0; i < nq; i++ {
 		q := QSpec{
-			RecOut: genOuts(t, "recout", []string{"ok", "ok", "err", "err", "panic", "requeue-err"}, 8),
-			MapOut: genOuts(t, "mapout", []string{"ok", "err", "panic"}, 4),
-			Conc:   rapid.IntRange(1, 3).Draw(t, "qconc"),
-			BusyMs: rapid.SampledFrom([]int{0, 0, 20, 400}).Draw(t, "qbusy"),
+			RecOut:  genOuts(t, "recout", []string{"ok", "ok", "err", "err", "panic", "requeue-err"}, 8),
+			MapOut:  genOuts(t, "mapout", []string{"ok", "err", "panic"}, 4),
+			Conc:    rapid.IntRange(1, 3).Draw(t, "qconc"),
+			BusyMs:  rapid.SampledFrom([]int{0, 0, 20, 400}).Draw(t, "qbusy"),
+			ErrKind: rapid.SampledFrom([]int{0, 0, 2}).Draw(t, "qerrkind"),
 		}
 
 		if rapid.Bool().Draw(t, "hashook") {
@@ -99,7 +107,7 @@ func Gen(t *rapid.T) Plan {
 
 	nt := rapid.IntRange(0, 2).Draw(t, "ntask")
 	for i := 0; i < nt; i++ {
-		p.Tasks = append(p.Tasks, TSpec{Out: genOuts(t, "taskout", []string{"err", "err", "panic", "finish"}, 6)})
+		p.Tasks = append(p.Tasks, TSpec{Out: genOuts(t, "taskout", []string{"err", "err", "panic", "finish"}, 6), ErrKind: rapid.SampledFrom([]int{0, 0, 1, 2}).Draw(t, "terrkind")})
 	}
 
 	// mostly dense histories within 20 s; sometimes a history spread over an hour, so that failures follow long
@@ -147,12 +155,13 @@ func envelope(n int) (time.Duration, time.Duration) {
 var errInjectedWatch = errors.New("injected watch failure")
 
 type taskSpec struct {
-	id   string
-	w    *sim.World
-	out  sim.Outcomes
-	mu   *sync.Mutex
-	runs *[]time.Duration
-	ends *[]time.Duration
+	id      string
+	w       *sim.World
+	out     sim.Outcomes
+	errKind int
+	mu      *sync.Mutex
+	runs    *[]time.Duration
+	ends    *[]time.Duration
 }
 
 func (s taskSpec) ID() task.ID { return s.id }
@@ -178,7 +187,7 @@ func (s taskSpec) RunTask(ctx context.Context, _ *zap.Logger, _ struct{}) error 
 
 	switch o {
 	case "err":
-		return fmt.Errorf("task %s run %d failed", s.id, n)
+		return sim.ScriptedErr(s.errKind, fmt.Sprintf("task %s run %d failed", s.id, n))
 	case "panic":
 		panic(fmt.Sprintf("task %s run %d panicked", s.id, n))
 	case "finish":
@@ -229,7 +238,7 @@ func runBubble(p Plan) (v hk.Verdict) {
 			W: w, NameStr: name, Busy: time.Duration(ps.BusyMs) * time.Millisecond,
 			Ins:    []sim.InSpec{{NS: "n1", Typ: "TA", Kind: controller.InputWeak}},
 			Outs:   []sim.OutSpec{{Typ: "TC", Kind: controller.OutputShared}},
-			RunOut: sim.Outcomes(ps.RunOut), ResetBackoffOnOK: ps.ResetOK,
+			RunOut: sim.Outcomes(ps.RunOut), ResetBackoffOnOK: ps.ResetOK, ErrKind: ps.ErrKind,
 			OnWake: func(ctx context.Context, r controller.Runtime, _ *sim.PlainProbe, n int) { wr(ctx, r, n) },
 		}
 		plains = append(plains, pp)
@@ -251,7 +260,7 @@ func runBubble(p Plan) (v hk.Verdict) {
 			Ins:    []sim.InSpec{{NS: "n1", Typ: "TB", Kind: controller.InputQPrimary}, {NS: "n1", Typ: "TA", Kind: controller.InputQMapped}},
 			Outs:   []sim.OutSpec{{Typ: "TC", Kind: controller.OutputShared}},
 			Mapper: map[string][]string{"TA/a": {"a"}, "TA/b": {"a", "b"}, "TA/c": {}},
-			RecOut: sim.Outcomes(qs.RecOut), MapOut: sim.Outcomes(qs.MapOut), Requeue: 700 * time.Millisecond,
+			RecOut: sim.Outcomes(qs.RecOut), MapOut: sim.Outcomes(qs.MapOut), Requeue: 700 * time.Millisecond, ErrKind: qs.ErrKind,
 			OnReconcile: func(ctx context.Context, r controller.QRuntime, _ resource.Pointer, n int) error {
 				wr(ctx, r, n)
 
@@ -284,7 +293,7 @@ func runBubble(p Plan) (v hk.Verdict) {
 
 	for i, ts := range p.Tasks {
 		id := "task" + strconv.Itoa(i)
-		should[id] = taskSpec{id: id, w: w, out: sim.Outcomes(ts.Out), mu: &tmu, runs: &taskRuns[i], ends: &taskEnds[i]}
+		should[id] = taskSpec{id: id, w: w, out: sim.Outcomes(ts.Out), errKind: ts.ErrKind, mu: &tmu, runs: &taskRuns[i], ends: &taskEnds[i]}
 	}
 
 	runner.Reconcile(w.Ctx, zap.NewNop(), should, struct{}{})
